@@ -283,15 +283,23 @@ def rule_support(ctx: Ctx):
     got = {show(t): show(n.value) for n in own_nodes(gi.node) if isinstance(n, ast.Assign) for t in n.targets}
     rep.check(got.get("self.key") == f"{gi.params[2]}.build_key({gi.params[1]})", "C02.keys", gi.loc(), "a grouper's key is built from its group and its list",
               gi.key, f"self.key = {got.get('self.key')}")
+    from ..shapes import canon_lookup
+
     gr = ctx.fn("CallbackSpecList.grouper")
     for p in ctx.paths(gr, inline=None, exc_edges="none"):
-        if p.kind == "return":
-            rep.check(xshow(p.value, p.events) == f"self._groupers[{gr.params[1]}]", "C02.keys", gr.loc(), "one grouper per group of a spec list", gr.key,
-                      f"return {xshow(p.value, p.events)}")
+        stored = None
         for e in p.of("store"):
-            if e.x.get("subscript"):
-                rep.check(xshow(e.x["value"], p.events) == f"SpecListGrouper(self, {gr.params[1]})", "C02.keys", e.loc(),
-                          "the grouper is created for this list and this group", gr.key, norm_stmt(e.node))
+            if e.x.get("subscript") and show(e.term.value) == "self._groupers":
+                stored = e
+                rep.check(show(e.term.slice) == gr.params[1] and xshow(e.x["value"], p.events) == f"SpecListGrouper(self, {gr.params[1]})",
+                          "C02.keys", e.loc(), "the grouper is created for this list and this group, and remembered under that group", gr.key,
+                          norm_stmt(e.node))
+        if p.kind == "return":
+            lk = canon_lookup(p.value, p.events)
+            same_as_stored = stored is not None and show(p.value) == show(stored.x["value"])
+            rep.check(lk == ("self._groupers", gr.params[1]) or same_as_stored, "C02.keys", gr.loc(),
+                      "one grouper per group of a spec list (the remembered one, or the one just created and remembered)", gr.key,
+                      f"return {xshow(p.value, p.events)}")
     gt = ctx.fn("CallbacksRegistry.__getitem__")
     for p in ctx.paths(gt, inline=None, exc_edges="none"):
         rep.check(p.kind == "return" and show(p.value) == f"self._registry[{gt.params[1]}]", "C02.keys", gt.loc(), "registry[key] is the executor of that key", gt.key,
